@@ -195,7 +195,7 @@ func c08NonTrivial(s gen.Sentence) bool {
 func runC08(ctx *harness.Ctx) {
 	useAvoid(ctx)
 	excluded := int64(0)
-	ctx.Rapid("sentence", ctx.Pick(15000, 300000), func(t *rapid.T) {
+	ctx.Rapid("sentence", ctx.Pick(15000, 150000), func(t *rapid.T) {
 		var c GenCase
 		if rapid.IntRange(0, 29).Draw(t, "long") == 0 {
 			c = drawGenLong(t, "", 2)
@@ -214,7 +214,7 @@ func runC08(ctx *harness.Ctx) {
 		ctx.Sample(map[string]any{"kind": c.S.Kind, "input": q(trunc(c.Text, 400))})
 		ctx.Check(t, cs, oracleC08(ctx, cs))
 	})
-	ctx.Rapid("list", ctx.Pick(3000, 60000), func(t *rapid.T) {
+	ctx.Rapid("list", ctx.Pick(3000, 30000), func(t *rapid.T) {
 		kind := rapid.SampledFrom([]string{"query", "ddl", "dml", "mixed", "mixed"}).Draw(t, "listkind")
 		n := rapid.IntRange(1, 4).Draw(t, "n")
 		var parts []string
